@@ -1657,6 +1657,62 @@ def snapshot(fn):
 
 
 # --------------------------------------------------------------------------
+# FINALLYLOST
+# --------------------------------------------------------------------------
+def finallylost(fn):
+    """``try: A  except Exception: X; raise`` followed by ``X``: a clean-up
+    written twice in place of ``finally``.  It runs when A succeeds and when
+    A raises an Exception - but not when A is left by KeyboardInterrupt,
+    SystemExit or GeneratorExit (a ``with`` block interrupted, a generator
+    closed), which ``finally`` covers: the clean-up (popping a stack,
+    releasing a lock) is then skipped and the state it guards stays as it
+    was."""
+    out = []
+    for holder in [fn] + list(_own_nodes(fn)):
+        if holder is not fn and isinstance(holder, _FUNC + (ast.ClassDef,)):
+            continue
+        for field in ("body", "orelse", "finalbody"):
+            blk = getattr(holder, field, None)
+            if not (isinstance(blk, list) and blk and
+                    isinstance(blk[0], ast.stmt)):
+                continue
+            for i, st in enumerate(blk[:-1]):
+                if not isinstance(st, ast.Try) or st.finalbody or \
+                        len(st.handlers) != 1:
+                    continue
+                h = st.handlers[0]
+                if h.type is None or _txt(h.type) != "Exception":
+                    continue
+                if not (len(h.body) >= 2 and isinstance(h.body[-1],
+                                                         ast.Raise) and
+                        h.body[-1].exc is None):
+                    continue
+                cleanup = h.body[:-1]
+                after = blk[i + 1:i + 1 + len(cleanup)]
+                if len(after) != len(cleanup):
+                    continue
+
+                def core_call(s_):
+                    # the call a statement makes, whatever is done with its
+                    # value (x.pop() / removed = x.pop())
+                    v = s_.value if isinstance(s_, (ast.Expr, ast.Assign,
+                                                    ast.Return)) else None
+                    return ast.dump(v) if isinstance(v, ast.Call) else \
+                        ast.dump(s_)
+                if [core_call(a) for a in cleanup] != \
+                        [core_call(b) for b in after]:
+                    continue
+                out.append((st, "the clean-up '%s' is written once under "
+                            "'except Exception: ...; raise' and once after "
+                            "the try statement (line %d) instead of under "
+                            "'finally': when the guarded block is left by "
+                            "KeyboardInterrupt, SystemExit or GeneratorExit "
+                            "neither copy runs" % (_txt(cleanup[0], 40),
+                                                   after[0].lineno)))
+    return out
+
+
+# --------------------------------------------------------------------------
 # CACHEDMUT
 # --------------------------------------------------------------------------
 _MUT_CTORS = {"dict", "list", "set", "bytearray", "defaultdict",
@@ -1762,7 +1818,8 @@ def findings(program, modules):
                             ("SWALLOW", lambda d=d: swallow(d)),
                             ("UNBOUND", lambda d=d: unbound(d)),
                             ("CACHEDMUT", lambda d=d: cachedmut(d)),
-                            ("SNAPSHOT", lambda d=d: snapshot(d))):
+                            ("SNAPSHOT", lambda d=d: snapshot(d)),
+                            ("FINALLYLOST", lambda d=d: finallylost(d))):
                 for n, text in f():
                     out.append((kind, mname, q, n, text, _txt(n, 50)))
     return out, stats
@@ -1770,7 +1827,8 @@ def findings(program, modules):
 
 _SELFTEST = []
 KINDS = ("UNDEF", "SELFATTR", "CALLSIG", "EXHAUST", "ITERMUT", "LATEBIND",
-         "INTDIV", "SHADOW", "SWALLOW", "UNBOUND", "CACHEDMUT", "SNAPSHOT")
+         "INTDIV", "SHADOW", "SWALLOW", "UNBOUND", "CACHEDMUT", "SNAPSHOT",
+         "FINALLYLOST")
 
 
 def selftest():
